@@ -198,3 +198,92 @@ Lemma started_spec dt dr stamp0 timeout redo m :
 Proof.
   unfold started. cbn. repeat split; lraq.
 Qed.
+
+(* ------------------------------------------------------------ the driver IS the walk *)
+Lemma drive_is_walk sched : forall x stamp xf sf log m,
+  x_done x = false -> x_failed x = false -> x_tx x = Some m ->
+  s_stop (x_rtimer x) = qadd (s_start (x_rtimer x)) (s_dur (x_rtimer x)) ->
+  drive x stamp sched = (xf, sf, log) ->
+  let W := walk (s_stop (x_timer x)) (x_timeout x) (x_redo x) (s_dur (x_rtimer x))
+                (s_start (x_rtimer x)) stamp sched in
+  x_failed xf = fst W /\ x_done xf = fst W /\ log = map (fun s => (s, m)) (snd W).
+Proof.
+  induction sched as [|d r IH]; intros x stamp xf sf log m Hd Hf Htx Hsh H; cbn [drive walk] in *.
+  - inversion H; subst. cbn. auto.
+  - rewrite Hd in H.
+    destruct (process_spec x (qadd stamp d)) as (P1 & P2 & P3).
+    change (qltb 0 (x_timeout x) && qleb (s_stop (x_timer x)) (qadd stamp d))
+      with (timed_out x (qadd stamp d)).
+    destruct (timed_out x (qadd stamp d)) eqn:Eto.
+    + rewrite (P1 eq_refl) in H.
+      destruct (drive_done r (set_flags x true true) (qadd stamp d) eq_refl) as (sf2 & Hdr & _).
+      rewrite Hdr in H. inversion H; subst. cbn. auto.
+    + assert (Erd : redo_due x (qadd stamp d) =
+                    qltb 0 (x_redo x) && qleb (qadd (s_start (x_rtimer x)) (s_dur (x_rtimer x))) (qadd stamp d)).
+      { unfold redo_due. cbn. rewrite Hsh. reflexivity. }
+      rewrite <- Erd. destruct (redo_due x (qadd stamp d)) eqn:Er.
+      * rewrite (P2 eq_refl eq_refl), Htx in H.
+        destruct (drive (set_rtimer x (st_now (x_rtimer x) (qadd stamp d))) (qadd stamp d) r)
+          as [[xf' sf'] log'] eqn:E.
+        specialize (IH (set_rtimer x (st_now (x_rtimer x) (qadd stamp d))) (qadd stamp d) xf' sf' log' m
+                       Hd Hf Htx eq_refl E). cbn in IH.
+        inversion H; subst. clear H.
+        destruct (walk (s_stop (x_timer x)) (x_timeout x) (x_redo x) (s_dur (x_rtimer x))
+                       (qadd stamp d) (qadd stamp d) r) as [f l].
+        cbn in *. destruct IH as (A & B & C). subst log'. auto.
+      * rewrite (P3 eq_refl eq_refl) in H.
+        destruct (drive x (qadd stamp d) r) as [[xf' sf'] log'] eqn:E. inversion H; subst. clear H.
+        cbn [app map]. exact (IH _ _ _ _ _ m Hd Hf Htx Hsh E).
+Qed.
+
+Definition tof (dflt : Q) (o : option Q) : Q := match o with Some v => v | None => dflt end.
+
+Lemma lifetime_is_walk dt dr stamp0 timeout redo m sched xf sf log :
+  lifetime dt dr stamp0 timeout redo m sched = (xf, sf, log) ->
+  let T := tof dt timeout in let R := tof dr redo in
+  let W := walk (qadd stamp0 (qabs T)) T R (qabs R) stamp0 stamp0 sched in
+  x_failed xf = fst W /\ x_done xf = fst W /\ log = map (fun s => (s, m)) (snd W).
+Proof.
+  unfold lifetime. intros H.
+  exact (drive_is_walk sched (started dt dr stamp0 timeout redo m) stamp0 xf sf log m
+           eq_refl eq_refl eq_refl eq_refl H).
+Qed.
+
+Lemma lifetime_fails_iff dt dr stamp0 timeout redo m sched xf sf log :
+  Forall (Qle 0) sched -> 0 < tof dt timeout ->
+  lifetime dt dr stamp0 timeout redo m sched = (xf, sf, log) ->
+  (x_failed xf = true <-> sched <> [] /\ stamp0 + tof dt timeout <= stamp0 + qsum sched).
+Proof.
+  unfold lifetime. intros Hs Ht H.
+  destruct (started_spec dt dr stamp0 timeout redo m) as (S1 & S2 & _ & S4 & _ & _ & S7 & _).
+  cbv zeta in *. unfold tof in *.
+  assert (Ht' : 0 < x_timeout (started dt dr stamp0 timeout redo m)) by (rewrite S4; exact Ht).
+  rewrite (drive_fails_iff sched _ _ _ _ _ Hs S1 S2 Ht' H).
+  pose proof (drive_stamp _ _ _ _ _ _ H) as Hsf. rewrite S4 in S7.
+  pose proof (qabs_id _ (Qlt_le_weak _ _ Ht)) as Ha.
+  split; intros [A B]; (split; [exact A|]); lraq.
+Qed.
+
+Lemma lifetime_redo dt dr stamp0 timeout redo m sched xf sf log :
+  0 < tof dr redo -> lifetime dt dr stamp0 timeout redo m sched = (xf, sf, log) ->
+  spaced (tof dr redo) (stamp0 :: map fst log) /\ Forall (fun p => snd p = m) log.
+Proof.
+  unfold lifetime. intros Hr H.
+  destruct (started_spec dt dr stamp0 timeout redo m) as (_ & _ & S3 & _ & S5 & _ & _ & S8 & S9 & S10).
+  cbv zeta in *. unfold tof in *.
+  pose proof (qabs_id _ (Qlt_le_weak _ _ Hr)) as Ha.
+  assert (Hi : rinv (started dt dr stamp0 timeout redo m)).
+  { split; [rewrite S8; exact S9 | rewrite S10, S5; exact Ha]. }
+  assert (Hr' : 0 < x_redo (started dt dr stamp0 timeout redo m)) by (rewrite S5; exact Hr).
+  destruct (drive_redo sched _ _ _ _ _ Hi Hr' H) as [A B]. rewrite S5, S8 in A. split; [exact A|].
+  eapply Forall_impl; [|exact B]. intros p Hp. cbv beta in Hp. rewrite S3 in Hp. congruence.
+Qed.
+
+Lemma lifetime_zero_timeout dt dr stamp0 timeout redo m sched xf sf log :
+  tof dt timeout <= 0 -> lifetime dt dr stamp0 timeout redo m sched = (xf, sf, log) -> x_failed xf = false.
+Proof.
+  unfold lifetime. intros Ht H.
+  destruct (started_spec dt dr stamp0 timeout redo m) as (_ & S2 & _ & S4 & _).
+  cbv zeta in *. unfold tof in *.
+  eapply drive_zero_timeout; [|exact S2|exact H]. rewrite S4. exact Ht.
+Qed.
